@@ -263,6 +263,17 @@ def run(ctx, build):
                         bad = bad or 'pixels missing or duplicated'
                 if bad:
                     violate('ImageTranslator.translate', variant, 'pixel_under_wrong_coordinates', '%s | %s' % (bad, desc), desc)
+                if variant == 'normalized' and data.shape == (expect.size, 1) and kind != 'txt_float':
+                    # the written column as exact binary fractions against the exact rational (pixel - min) / (max - min) of the model
+                    def cfrac(x0):
+                        x0 = float(np.real(x0))
+                        if not np.isfinite(x0):
+                            return cpair('(0)%Z', '(0)%Z')
+                        n0, d0 = x0.as_integer_ratio()
+                        return cpair('(%d)%%Z' % n0, '(%d)%%Z' % d0)
+                    cases.append('(CImageNorm %s %s)' % (clist([[int(x) for x in row] for row in img], lambda r: clist(r, cnat)), clist(list(data[:, 0]), cfrac)))
+                    meta.append(desc)
+                    hist['images']['normalized_in_model'] = hist['images'].get('normalized_in_model', 0) + 1
                 if variant == 'plain':
                     lab_id = {'Y': 0, 'X': 1}
                     cases.append('(CImage %s %s %s %s %s)' % (clist([[int(x) for x in row] for row in img], lambda r: clist(r, cnat)), clist([int(round(float(x))) for x in data[:, 0]], cnat),
@@ -401,5 +412,5 @@ def run(ctx, build):
                 'produced or removed by a rejected call; non-trivial = distinct configuration')
     out.histogram = hist
     out.trusted = ['PIL decoding / resizing and numpy.savetxt / loadtxt (image contents before flattening are taken as read back by the library\'s own reader for the binned variant)',
-                   'binned and normalized images are judged by the oracle only; the Coq model covers the plain flattening']
+                   'binned images are judged by the oracle only (PIL resampling is outside the model); normalized images: exact rational model (Usid/TranslateNorm), the written float32 / float64 numbers compared as exact binary fractions within 2^-20']
     return out
